@@ -1,5 +1,93 @@
-"""Property-level lemmas: first-order consequences of the contracts."""
+"""Property-level lemmas: first-order consequences of the contracts (or of the definitional axioms of
+spec functions), discharged by the same back end.  Each returns one obligation record."""
+import time
+import z3
+from pyvc import smt
+from pyvc.smt import V, NONE_MARK
+from pyvc.state import Heap, AIV, AVV, fresh_v
+from pyvc.spec import SpecEnv
+
+
+def _rec(name, ok, secs, reason=""):
+    return {"name": "lemma#" + name, "kind": "lemma", "label": name, "status": "discharged" if ok is True else ("failed" if ok is False else "unknown"),
+            "backend": "z3", "seconds": round(secs, 3), "reason": reason, "lineno": None, "trace": [], "model": {}, "model_text": ""}
+
+
+def _valid(hyps, goal, timeout=10):
+    s = z3.Solver()
+    s.set("timeout", int(timeout * 1000))
+    s.add(*hyps)
+    s.add(z3.Not(goal))
+    r = s.check()
+    return True if r == z3.unsat else (False if r == z3.sat else None), (str(s.model())[:500] if r == z3.sat else "")
+
+
+def cnt_monotone(eng, timeout):
+    """The lemma assumed with cntu (scheduler_c): 0<=k<m => CNT(k) + [uncomputed r[k]] <= CNT(m), by induction on m
+    from the two defining equations (base m=k+1, step m -> m+1)."""
+    t0 = time.time()
+    CNT = z3.Function("cnt_uncomputed", AIV, AVV, z3.IntSort(), z3.IntSort())
+    r = z3.Const("r", AIV)
+    a = z3.Const("a", AVV)
+    k, m = z3.Ints("k m")
+    unc = lambda i: z3.If(z3.Select(a, z3.Select(r, i)) == NONE_MARK, 1, 0)
+    defn = lambda i: CNT(r, a, i + 1) == CNT(r, a, i) + unc(i)      # instance of the defining equation (i >= 0)
+    base_ok, m1 = _valid([k >= 0, defn(k)], CNT(r, a, k) + unc(k) <= CNT(r, a, k + 1), timeout)
+    step_ok, m2 = _valid([k >= 0, m > k, defn(m), CNT(r, a, k) + unc(k) <= CNT(r, a, m)],
+                         CNT(r, a, k) + unc(k) <= CNT(r, a, m + 1), timeout)
+    ok = True if (base_ok and step_ok) else (False if (base_ok is False or step_ok is False) else None)
+    return _rec("cnt-monotone", ok, time.time() - t0, (m1 + m2)[:300])
+
+
+def lifo_save_restore(eng, timeout):
+    """C07: with the verified contracts of _AsyncScopedValueOverrideContext.resume/pause, a properly nested
+    (LIFO) activation restores the cell and reads inside see the innermost override.  Induction over the nesting:
+    one step = resume(c); [inner balanced activity that restores the cell and leaves c's saved value alone]; pause(c)."""
+    t0 = time.time()
+    reg = eng.reg
+    cres = reg.contracts["scoped_value._AsyncScopedValueOverrideContext.resume"]
+    cpau = reg.contracts["scoped_value._AsyncScopedValueOverrideContext.pause"]
+    c = z3.Const("c", V)
+    h0, h1, h2, h3 = Heap(), Heap(), Heap(), Heap()
+    names = {"self": c}
+    hyps = list(eng.axioms())
+    e01 = SpecEnv(eng, names, h1, h0)
+    for p in cres.requires:
+        hyps.append(SpecEnv(eng, names, h0, h0).formula(p))
+    for p in cres.post:
+        hyps.append(e01.formula(p))
+    target0 = h0.sel("_target", c)
+    # resume/pause do not modify _target/_value of the context (frame: fields not in `modifies`)
+    for f in ("_target",):
+        hyps.append(h1.get(f) == h0.get(f))
+        hyps.append(h2.get(f) == h1.get(f))
+        hyps.append(h3.get(f) == h2.get(f))
+    # induction hypothesis for the inner (balanced) activity h1 -> h2
+    hyps.append(h2.sel("_value", target0) == h1.sel("_value", target0))
+    hyps.append(h2.sel("_old_value", c) == h1.sel("_old_value", c))
+    e23 = SpecEnv(eng, names, h3, h2)
+    for p in cpau.post:
+        hyps.append(e23.formula(p))
+    hyps.append(c != target0)
+    inner_read = h1.sel("_value", target0) == h0.sel("_value", c)
+    restored = h3.sel("_value", target0) == h0.sel("_value", target0)
+    ok1, m1 = _valid(hyps, inner_read, timeout)
+    ok2, m2 = _valid(hyps, restored, timeout)
+    # vacuity: hypotheses satisfiable
+    s = z3.Solver()
+    s.set("timeout", 3000)
+    s.add(*hyps)
+    vac = s.check() == z3.unsat
+    ok = True if (ok1 and ok2 and not vac) else (False if (ok1 is False or ok2 is False or vac) else None)
+    return _rec("lifo-save-restore", ok, time.time() - t0, ("vacuous hypotheses " if vac else "") + (m1 + m2)[:300])
+
+
+LEMMAS = {"cnt-monotone": cnt_monotone, "lifo-save-restore": lifo_save_restore}
 
 
 def run(lem, eng, timeout):
-    raise NotImplementedError(lem)
+    try:
+        return LEMMAS[lem](eng, timeout)
+    except Exception as e:
+        import traceback
+        return _rec(lem, None, 0.0, "lemma error: " + traceback.format_exc()[-400:])
